@@ -120,6 +120,9 @@ def gen_loader_case(rng, tier, cls):
         "params_style": rng.choice(["joint", "split"]),
         "left": rng.randint(0, 4), "right": rng.randint(0, 4), "reverse": rng.random() < 0.4,
     }
+    # feature files of recordings that were never transcribed sit in the same directory (the data set leaves them out,
+    # with a warning): very short and very long ones, sorting before, between and after the real ids
+    case["strays"] = fam == "spect" and case["has_ref"] and rng.random() < 0.4
     if fam == "lang":
         # the length that matters is the reference length
         rl = _lengths(rng, N, style, lo=0 if zero_len else 1, hi=12)
@@ -178,6 +181,14 @@ def materialise(case, root):
             torch.save(u["ali"], os.path.join(root, "ali", u["name"] + ".pt"))
         if case["has_ref"]:
             torch.save(u["ref"], os.path.join(root, "ref", u["name"] + ".pt"))
+    if case.get("strays") and case["has_ref"] and utts:
+        F = utts[0]["feat"].shape[1] if utts[0]["feat"].dim() == 2 else 1
+        longest = max(int(u["feat"].shape[0]) for u in utts)
+        taken = {u["name"] for u in utts}
+        mid = utts[len(utts) // 2]["name"] + "0"
+        for name, T in (("!untranscribed", 4 * longest + 3), (mid, 1), ("~untranscribed", 2 * longest + 1)):
+            if name not in taken:
+                torch.save(torch.zeros(T, F), os.path.join(root, "feat", name + ".pt"))
     return utts
 
 
